@@ -9,5 +9,6 @@ CONSTANTS
   EmitTrees = FALSE
   Alpha = "B"
   MaxLen = 4
-  TailLen = 2
+  TailLen = 1
+  DeepReps = {}
 INVARIANT Emit
